@@ -129,7 +129,7 @@ func tokens(s *uimodel.State, preload int) []token {
 		if len(s.Buffer) >= 2 {
 			return []token{t("Enter", "\r"), t("Esc", "\x1b"), t("Backspace", "\x7f")}
 		}
-		return []token{t("Enter", "\r"), t("Esc", "\x1b"), t("Backspace", "\x7f"), t("x", "x"), t("0xC3", "\xc3"), t("space", " ")}
+		return []token{t("Enter", "\r"), t("Esc", "\x1b"), t("Backspace", "\x7f"), t("x", "x"), t("0xC3", "\xc3"), t("space", " "), t("LF", "\n"), t("NUL", "\x00")}
 	}
 	H := uimodel.H
 	return []token{
